@@ -216,7 +216,17 @@ fn sc_min_ada(ctx: &mut Ctx) {
                 ctx.violation(format!("{}/min_ada_for_output/above-widest-bound", P), format!("returned {} > {} (cpb {} x (160 + {}))", c, upper, cpb, size_of(&widest)));
             }
             // the builder's acceptance test must agree with the bound for the output as carried
-            for mvs in [60u32, 5000] {
+            // the value-size limit at, just above and up to 10 below the real size of this value (the
+            // array head and the coin are 2..10 of its bytes)
+            let vs0 = o2.amount().to_bytes().len() as u32;
+            let mut limits = vec![60u32, 5000];
+            for dlt in [-1i64, 0, 1, 2, 5, 6, 7, 10] {
+                let l = vs0 as i64 - dlt;
+                if l > 0 {
+                    limits.push(l as u32);
+                }
+            }
+            for mvs in limits {
                 let mut p = Params::mainnet();
                 p.coins_per_byte = cpb;
                 p.max_value_size = mvs;
